@@ -14,6 +14,7 @@ import (
 	"regexp"
 	"runtime"
 	"sort"
+	"strconv"
 	"strings"
 	"sync/atomic"
 	"time"
@@ -191,6 +192,8 @@ func cmdCheck(args []string) {
 		}
 		for _, f := range hs.Final {
 			switch f {
+			case "z3":
+				cfg.FinalSolvers = append(cfg.FinalSolvers, SolverZ3)
 			case "z3-new":
 				cfg.FinalSolvers = append(cfg.FinalSolvers, SolverZ3New)
 			case "cvc5":
@@ -669,8 +672,10 @@ func runReplay(lp *loaded, repo, verif, dir string, cases []*replayCase) error {
 			o := &replayOutcome{Ran: true}
 			// fails printed with %q on []string: ["a" "b"]
 			for _, q := range regexp.MustCompile(`"((?:[^"\\]|\\.)*)"`).FindAllStringSubmatch(m[2], -1) {
-				s := q[1]
-				s = strings.ReplaceAll(s, `\"`, `"`)
+				s, err := strconv.Unquote(`"` + q[1] + `"`)
+				if err != nil {
+					s = q[1]
+				}
 				o.Fails = append(o.Fails, s)
 			}
 			if m[3] != "<nil>" {
